@@ -347,8 +347,11 @@ func (h *H) checkInbound(f inboundFlags, final bool) (ownedAtEnd map[uint16]bool
 	for ; wi < len(wire); wi++ {
 		handleWire(wire[wi])
 	}
-	if final && f.c04 {
+	if final && (f.c04 || f.c07) {
 		// every exactly-once message the broker completed was returned at least once
+		// (C04: delivered once per cycle; C07: none acknowledged without having been
+		// returned — a message swallowed as a "duplicate" of a finished cycle, because a
+		// marker outlived it, is acknowledged all the way without ever being returned)
 		returned := map[string]bool{}
 		for _, w := range h.worlds() {
 			for i := range w.App.Results {
